@@ -1817,6 +1817,36 @@ pub fn world_b_silence(property: &str, scenario: &str, seed: u64, run: u64, thor
             break;
         }
     }
+    if run >= 4000 && run % 2 == 0 {
+        // (runs added later) the server application stalls for a little longer than its silence
+        // timeout while its first client, which has nothing to say, keeps sending keepalives;
+        // at the beginning of the stall 300-700 datagrams that are no frames at all (and bear
+        // that client's address) pile up in the server's socket, so that the client's frames
+        // queue up behind them. The step after the stall finds all of it in the socket: the
+        // peer was not silent
+        let mut rs = Rng::keyed(&[seed, run, 0x57a1_1]);
+        let c = topo.clients[0];
+        let to = *rs.pick(&[3000u64, 8000, 20_000]);
+        if let EndpointKind::Server { cfg, .. } = &mut plan.endpoints[0].kind {
+            cfg.active_timeout_ms = to;
+        }
+        if let EndpointKind::Client { cfg, .. } = &mut plan.endpoints[c].kind {
+            cfg.active_timeout_ms = 60_000;
+            cfg.keepalive = true;
+            cfg.keepalive_interval_ms = rs.range(100, to / 3);
+        }
+        let t_s = rs.range(8_000_000, 25_000_000);
+        let len = to * 1000 + rs.range(100_000, 2_000_000);
+        plan.timeline.retain(|t| !(t.t_us >= t_s && t.t_us <= t_s + len && matches!(&t.op, Op::Step { ep: 0 } | Op::Flush { ep: 0 } | Op::Link { .. } | Op::ClockJump { .. })));
+        plan.timeline.retain(|t| !(t.t_us >= t_s.saturating_sub(3_000_000) && t.t_us <= t_s + len && matches!(&t.op, Op::Send { .. } | Op::Disconnect { .. } | Op::DisconnectNow { .. })));
+        let n = rs.range(300, 700);
+        for k in 0..n {
+            let len_b = rs.range(1, 40) as usize;
+            let bytes: Vec<u8> = (0..len_b).map(|_| rs.below(256) as u8).collect();
+            plan.push(t_s + 1000 + k * (len / 10) / n, 0x8000_0002, Op::Inject { to: 0, from: c, bytes, twin: false });
+        }
+        plan.push(t_s + len + 1, r.u32() | 1, Op::Step { ep: 0 });
+    }
     plan.end_us = horizon;
     plan.sort();
     plan
